@@ -164,6 +164,10 @@ type Engine struct {
 	bufs           map[*Value][]bufSeg
 	sbufs          map[*Value]StrVal
 	syncMaps       map[*Value][]syncEnt
+	fnStack        []*ssa.Function
+	sbufCap        map[*Value]int
+	onceDone       map[*Value]bool
+	bitw           map[*Term]int
 	inInit         bool
 	expectPanic    string
 
@@ -432,6 +436,10 @@ func (e *Engine) resetPath(prefix []bool) {
 	e.bufs = map[*Value][]bufSeg{}
 	e.sbufs = map[*Value]StrVal{}
 	e.syncMaps = map[*Value][]syncEnt{}
+	e.fnStack = e.fnStack[:0]
+	e.sbufCap = map[*Value]int{}
+	e.onceDone = map[*Value]bool{}
+	e.bitw = map[*Term]int{}
 	e.expectPanic = ""
 	e.atomSeq = 0
 }
@@ -467,7 +475,7 @@ func (e *Engine) runPath(prefix []bool) {
 				e.sh.noteInconclusive("unwind: " + pe.msg)
 			case "unsupported", "marshalerr":
 				e.st.Unsupported++
-				e.sh.noteInconclusive("unsupported: " + pe.msg)
+				e.sh.noteInconclusive("unsupported: " + pe.msg + e.whereAmI())
 			case "unknown":
 				e.st.Unknown++
 				e.sh.noteInconclusive("solver: " + pe.msg)
@@ -682,6 +690,14 @@ func (e *Engine) call(fn *ssa.Function, args []Value) Value {
 	if fn.Name() == "init" && fn.Synthetic != "" && !e.inScope(fn) {
 		return nil // library package initialisers are not executed
 	}
+	if recv := fn.Signature.Recv(); recv != nil && !e.inScope(fn) {
+		// types whose state lives in engine side tables: a method without a
+		// model must not run from SSA on the (untouched) struct fields
+		switch strings.TrimPrefix(recv.Type().String(), "*") {
+		case "strings.Builder", "bytes.Buffer", "sync.Map", "sync.Once", "sync.Mutex", "sync.RWMutex", "sync.Pool", "sync.WaitGroup":
+			unsupported("no model for method %s", fn.String())
+		}
+	}
 	if !e.inScope(fn) && !e.libWhitelisted(fn) && !e.libExecAllowed(fn) {
 		unsupported("no model for library function %s", fn.String())
 	}
@@ -700,6 +716,8 @@ func (e *Engine) run(fn *ssa.Function, args []Value, bindings []Value) Value {
 		panic(pathEnd{"unwind", "call depth > 400 in " + fn.String()})
 	}
 	defer func() { e.depth-- }()
+	nStack := len(e.fnStack)
+	e.fnStack = append(e.fnStack[:nStack:nStack], fn) // left as is when the path ends inside (whereAmI)
 	fr := &Frame{fn: fn, env: make(map[ssa.Value]Value, 16), visits: map[*ssa.BasicBlock]int{}}
 	if len(args) != len(fn.Params) {
 		unsupported("arity mismatch calling %s: %d args for %d params", fn.String(), len(args), len(fn.Params))
@@ -710,7 +728,30 @@ func (e *Engine) run(fn *ssa.Function, args []Value, bindings []Value) Value {
 	for i, fvv := range fn.FreeVars {
 		fr.env[fvv] = bindings[i]
 	}
-	return e.exec(fr)
+	r := e.exec(fr)
+	e.fnStack = e.fnStack[:nStack]
+	return r
+}
+
+// whereAmI names the library entry point the path was inside (the first
+// library function called from repository or harness code) when it ended.
+func (e *Engine) whereAmI() string {
+	entry := ""
+	for i := len(e.fnStack) - 1; i >= 0; i-- {
+		if e.inScope(e.fnStack[i]) {
+			break
+		}
+		entry = e.fnStack[i].String()
+	}
+	st := e.fnStack
+	e.fnStack = nil
+	if entry == "" {
+		if len(st) > 0 {
+			return " [in " + st[len(st)-1].String() + "]"
+		}
+		return ""
+	}
+	return " [inside " + entry + "]"
 }
 
 func (e *Engine) callFuncVal(fv FuncVal, args []Value) Value {
